@@ -25,6 +25,7 @@ def rewind_on_stream_retry(ctx):
         return
     c = cs[0]
     amt = c.args[1] if len(c.args) > 1 else kwarg(c, 'bytes_transferred')
+    amt = q.resolve_local(f, amt) if amt is not None else None
     cursors = [n.target.id for n in ast.walk(rl.try_) if isinstance(n, ast.AugAssign) and isinstance(n.target, ast.Name) and isinstance(n.op, ast.Add) and norm(n.value).startswith('len(')]
     ok = False
     why = f'found {norm(amt)}'
